@@ -210,6 +210,30 @@ def readStepwise (M : NPDA σ α γ) (fuel : Nat) (w : List α) : List (List (Co
   let r := M.run fuel c0
   (c0 :: r.1, r.2)
 
+/-- Driver support (not part of the mirrored code): `run` taken one loop iteration at a time
+(`run 1`), giving up — as if the fuel had run out — after a level with more than `cap`
+configurations.  The result is `run fuel' cur` for some `fuel' ≤ fuel`
+(`NPDA.guardedRun_eq_run`); the harness applies the same size budget to the real reader, so
+on agreeing runs `fuel' = fuel`, and a diverging implementation cannot make the driver
+enumerate an exponentially large level. -/
+def guardedRun (M : NPDA σ α γ) (cap : Nat) : Nat → List (Config σ α γ) → List (List (Config σ α γ)) × Outcome
+  | 0, _ => ([], .outOfFuel)
+  | fuel + 1, cur =>
+    match M.run 1 cur with
+    | ([nxt], .outOfFuel) =>
+      match decide (cap < nxt.length) with
+      | true => ([nxt], .outOfFuel)
+      | false =>
+        let r := guardedRun M cap fuel nxt
+        (nxt :: r.1, r.2)
+    | r => r
+
+/-- `readStepwise` through `guardedRun`. -/
+def guardedReadStepwise (M : NPDA σ α γ) (cap fuel : Nat) (w : List α) : List (List (Config σ α γ)) × Outcome :=
+  let c0 := [M.start w]
+  let r := M.guardedRun cap fuel c0
+  (c0 :: r.1, r.2)
+
 /-! #### validation -/
 
 /-- `NPDA._validate_transition_invalid_symbols(start_state, paths)`. -/
